@@ -36,6 +36,10 @@ def PS.peek (s : PS) : Tok := match s.toks with | [] => eofClosed | t :: _ => t
 def PS.pop (s : PS) : PS := { s with toks := s.toks.drop 1 }
 def PS.err (s : PS) (t : Tok) (k : String) : PS := { s with errs := ⟨t.line, t.col, k⟩ :: s.errs }
 def PS.warn (s : PS) (t : Tok) (k : String) : PS := { s with warns := ⟨t.line, t.col, k⟩ :: s.warns }
+def PS.clearSkip (s : PS) : PS := { s with skipSize := false }
+def PS.addName (s : PS) (n : Name) : PS := { s with names := n :: s.names }
+def PS.bumpEll (s : PS) : PS := { s with ell := s.ell + 1 }
+def PS.resetScope (s : PS) : PS := { s with names := [], ell := 0 }
 
 def lexErrKind : Option LexErr → String
   | some .unexpectedChar => "syntax error: unexpected character in data item"
@@ -186,55 +190,81 @@ def asciiLoop (mn mx : Int) (n : Nat) : List Tok → Bytes → PS → R Tmpl × 
 
 def widthOfType (ty : Bytes) : Nat := match ty with | [_, d] => d - 48 | _ => 0
 
+/-- the token standing in for "no size declaration" (never the position of a diagnostic that
+is reported: without a declaration every size is accepted) -/
+def dummyTok : Tok := ⟨.eof, [], 0, 0, none⟩
+
+/-- parseDataItemSize: (token a size error is reported at, lower, upper bound, state) -/
+def sizeDecl (s : PS) : Tok × Int × Int × PS :=
+  let pk := s.peek
+  if pk.kind == .itemSize then (pk, (sizeBounds pk.val).1, (sizeBounds pk.val).2, s.pop)
+  else (dummyTok, 0, -1, s)
+
+/-- the values of an ASCII item -/
+def asciiItem (lo hi : Int) (s : PS) : R Tmpl × PS :=
+  let vt := valueTokens (s.toks.length + 1) s
+  asciiLoop lo hi vt.1.length vt.1 [] vt.2
+
+/-- the values of a B, BOOLEAN, I*, U*, F* item and the factory call -/
+def arrayItem (ty : Bytes) (s : PS) : R Tmpl × PS :=
+  let vt := valueTokens (s.toks.length + 1) s
+  let w := widthOfType ty
+  match arrayArgs ty w vt.1 vt.2 with
+  | (none, s2) => (.stop, s2)
+  | (some gs, s2) =>
+    let o := if ty == [66] then mkBinary gs
+      else if ty == [66, 79, 79, 76, 69, 65, 78] then mkBoolean gs
+      else if ty.head? == some 70 then mkFloat w gs
+      else if ty.head? == some 73 then mkInt w gs
+      else mkUint w gs
+    (ofFactory o, s2)
+
+/-- the closing `>` after the values -/
+def closeTail (item : Tmpl) (s : PS) : R Tmpl × PS :=
+  let s := s.clearSkip
+  let rb := s.peek
+  if rb.kind != .rab then (.stop, s.err rb "expected '>', found") else (.ok item, s.pop)
+
+/-- the size check against the declaration and the closing `>` -/
+def closeItem (sizeTok : Tok) (lo hi : Int) (res : R Tmpl) (s : PS) : R Tmpl × PS :=
+  match res with
+  | .stop => (.stop, s)
+  | .panic => (.panic, s)
+  | .ok item =>
+    if item.size ≥ 0 && !s.skipSize && !sizeOk item.size lo hi
+    then closeTail item (s.err sizeTok s!"data item size overflow, got size of {item.size}")
+    else closeTail item s
+
+/-- the deferred recover of parseDataItem -/
+def recoverItem (lab : Tok) (body : R Tmpl × PS) : R Tmpl × PS :=
+  match body with
+  | (.panic, s) => (.stop, (s.err lab "panic").warn lab "Recovered from panic")
+  | r => r
+
+/-- parseDataItem after the `<`: type, size declaration, values, size check, `>`; `ll` parses
+the elements of a list (parseList) -/
+def itemBody (ll : PS → R Tmpl × PS) (s : PS) : R Tmpl × PS :=
+  let tt := s.peek
+  if tt.kind != .itemType then (.stop, s.err tt "invalid data item type") else
+  let ty := tt.val
+  let s := s.pop
+  let pk := s.peek
+  if pk.kind != .itemSize && pk.kind == .error then (.stop, s.err pk (lexErrKind pk.err)) else
+  let d := sizeDecl s
+  let r : R Tmpl × PS :=
+    if ty == [76] then ll d.2.2.2
+    else if ty == [65] then asciiItem d.2.1 d.2.2.1 d.2.2.2
+    else arrayItem ty d.2.2.2
+  closeItem d.1 d.2.1 d.2.2.1 r.1 r.2
+
 /-- parseList's loop and parseDataItem, mutually recursive through the nesting (fuel) -/
 def parseItemF : Nat → PS → R Tmpl × PS
   | 0, s => (.stop, s)
   | fuel + 1, s =>
     let lab := s.peek
     if lab.kind != .lab then (.stop, s.err lab "expected '<', found") else
-    let s := s.pop
-    -- everything below runs under the item's recover
-    let body : R Tmpl × PS :=
-      let tt := s.peek
-      if tt.kind != .itemType then (.stop, s.err tt "invalid data item type") else
-      let ty := tt.val
-      let s := s.pop
-      let pk := s.peek
-      if pk.kind != .itemSize && pk.kind == .error then (.stop, s.err pk (lexErrKind pk.err)) else
-      let (sizeTok, lo, hi, s) : Tok × Int × Int × PS :=
-        if pk.kind == .itemSize then
-          let (a, b) := sizeBounds pk.val
-          (pk, a, b, s.pop)
-        else (⟨.eof, [], 0, 0, none⟩, 0, -1, s)
-      let (res, s) : R Tmpl × PS :=
-        if ty == [76] then listLoop fuel 0 [] s
-        else if ty == [65] then
-          let (ts, s1) := valueTokens (s.toks.length + 1) s
-          asciiLoop lo hi ts.length ts [] s1
-        else
-          let (ts, s1) := valueTokens (s.toks.length + 1) s
-          let w := widthOfType ty
-          match arrayArgs ty w ts s1 with
-          | (none, s2) => (.stop, s2)
-          | (some gs, s2) =>
-            let o := if ty == [66] then mkBinary gs
-              else if ty == [66, 79, 79, 76, 69, 65, 78] then mkBoolean gs
-              else if ty.head? == some 70 then mkFloat w gs
-              else if ty.head? == some 73 then mkInt w gs
-              else mkUint w gs
-            (ofFactory o, s2)
-      match res with
-      | .stop => (.stop, s)
-      | .panic => (.panic, s)
-      | .ok item =>
-        let s := if item.size ≥ 0 && !s.skipSize && !sizeOk item.size lo hi
-                 then s.err sizeTok s!"data item size overflow, got size of {item.size}" else s
-        let s := { s with skipSize := false }
-        let rb := s.peek
-        if rb.kind != .rab then (.stop, s.err rb "expected '>', found") else (.ok item, s.pop)
-    match body with
-    | (.panic, s) => (.stop, (s.err lab "panic").warn lab "Recovered from panic")
-    | r => r
+    -- everything after the `<` runs under the item's recover
+    recoverItem lab (itemBody (listLoop fuel 0 []) s.pop)
 where
   /-- parseList: `count` items so far, `acc` the arguments in reverse -/
   listLoop : Nat → Nat → List GoVal → PS → R Tmpl × PS
@@ -249,12 +279,12 @@ where
     | .variable =>
       let s1 := s.pop
       if s1.names.contains t.val then listLoop fuel (count + 1) (.item .empty :: acc) (s1.err t "duplicated variable name")
-      else listLoop fuel (count + 1) (.str t.val :: acc) { s1 with names := t.val :: s1.names }
+      else listLoop fuel (count + 1) (.str t.val :: acc) (s1.addName t.val)
     | .ellipsis =>
       let s1 := s.pop
       if count == 0 then (.stop, s1.err t "ellipsis cannot be the first item in list") else
       let v : Bytes := [46, 46, 46, 91] ++ decDigits s1.ell ++ [93]
-      let s2 := { s1 with ell := s1.ell + 1 }
+      let s2 := s1.bumpEll
       let s3 := if t.val != [46, 46, 46] && t.val != v then s2.warn t "wrong ellipsis count" else s2
       listLoop fuel (count + 1) (.str v :: acc) s3
     | .rab => (ofFactory (mkList acc.reverse), s)
@@ -265,31 +295,35 @@ inductive Outcome where
   | done (msgs : List Msg) (errs warns : List Diag)
   | panic
 
-/-- parseMessage: `none` = ok false (stop), `some none` = escaped panic -/
-def parseMessage (s : PS) : (Option (Option Msg)) × PS :=
-  let s := { s with names := [], ell := 0 }
-  let t := s.peek
-  if t.kind != .streamFunction then (none, s.err t "expected stream function, found") else
-  let (st, fn, s) := streamFunction s.pop t
-  let (wb, s) : Int × PS :=
-    let w := s.peek
-    if w.kind == .waitBit then
-      if w.val == [87] then
-        if fn % 2 == 0 then (0, s.pop.err w "wait bit cannot be true on reply message (function code is even)")
-        else (1, s.pop)
-      else (2, s.pop)
-    else (0, s)
-  let (dir, s) : Bytes × PS :=
-    let d := s.peek
-    if d.kind == .direction then (d.val, s.pop) else (dirBoth, s.warn d "missing message direction")
-  let (name, s) : Bytes × PS :=
-    let n := s.peek
-    if n.kind == .msgName then (n.val, s.pop) else ([], s)
+/-- the optional wait bit: 0 none, 1 `W`, 2 `[W]` -/
+def waitBitOf (fn : Int) (s : PS) : Int × PS :=
+  let w := s.peek
+  if w.kind == .waitBit then
+    if w.val == [87] then
+      if fn % 2 == 0 then (0, s.pop.err w "wait bit cannot be true on reply message (function code is even)")
+      else (1, s.pop)
+    else (2, s.pop)
+  else (0, s)
+
+/-- the optional direction (default `H<->E` with a warning) -/
+def directionOf (s : PS) : Bytes × PS :=
+  let d := s.peek
+  if d.kind == .direction then (d.val, s.pop) else (dirBoth, s.warn d "missing message direction")
+
+/-- the optional message name -/
+def nameOf (s : PS) : Bytes × PS :=
+  let n := s.peek
+  if n.kind == .msgName then (n.val, s.pop) else ([], s)
+
+/-- the message text: nothing, or one item -/
+def msgItem (s : PS) : R Tmpl × PS :=
   let tx := s.peek
-  let (item, s) : R Tmpl × PS :=
-    if tx.kind == .msgEnd then (.ok .empty, s)
-    else if tx.kind == .lab then parseItemF (s.toks.length + 1) s
-    else (.stop, s.err tx "expected '<' or '.', found")
+  if tx.kind == .msgEnd then (.ok .empty, s)
+  else if tx.kind == .lab then parseItemF (s.toks.length + 1) s
+  else (.stop, s.err tx "expected '<' or '.', found")
+
+/-- the terminator and NewDataMessage -/
+def finishMsg (name : Bytes) (st fn wb : Int) (dir : Bytes) (item : R Tmpl) (s : PS) : (Option (Option Msg)) × PS :=
   match item with
   | .ok it =>
     let e := s.peek
@@ -298,6 +332,18 @@ def parseMessage (s : PS) : (Option (Option Msg)) × PS :=
     | some m => (some (some m), s.pop)
     | none => (some none, s.pop)
   | _ => (none, s)
+
+/-- parseMessage: `none` = ok false (stop), `some none` = escaped panic -/
+def parseMessage (s : PS) : (Option (Option Msg)) × PS :=
+  let s := s.resetScope
+  let t := s.peek
+  if t.kind != .streamFunction then (none, s.err t "expected stream function, found") else
+  let sf := streamFunction s.pop t
+  let wb := waitBitOf sf.2.1 sf.2.2
+  let dir := directionOf wb.2
+  let nm := nameOf dir.2
+  let it := msgItem nm.2
+  finishMsg nm.1 sf.1 sf.2.1 wb.1 dir.1 it.1 it.2
 
 def parseLoop : Nat → PS → List Msg → Option (List Msg × PS)
   | 0, s, acc => some (acc.reverse, s)
@@ -308,14 +354,17 @@ def parseLoop : Nat → PS → List Msg → Option (List Msg × PS)
     | (some none, _) => none
     | (some (some m), s1) => parseLoop fuel s1 (m :: acc)
 
-/-- sml.Parse -/
-def parse (ual : List Nat) (input : Bytes) : Outcome :=
-  let toks := (lexAll ual input).filter (fun t => t.kind != .comment)
+/-- the parser proper, on the token stream without comments -/
+def parseToks (toks : List Tok) : Outcome :=
   match parseLoop (toks.length + 1) { toks := toks } [] with
   | none => .panic
   | some (msgs, s) =>
     if s.errs.isEmpty then .done msgs [] s.warns.reverse
     else .done [] s.errs.reverse s.warns.reverse
+
+/-- sml.Parse -/
+def parse (ual : List Nat) (input : Bytes) : Outcome :=
+  parseToks ((lexAll ual input).filter (fun t => t.kind != .comment))
 
 end Sml
 end Secs
